@@ -23,7 +23,7 @@ def run(ctx):
     tier = ctx.tier
     carve = sorted(ctx.known)
     tmo = 400 if tier == "quick" else 1500
-    exprs = [0, 1, 3, 4, 5]  # none, MIT, GPL-3.0 (deprecated), LicenseRef-x, Foo (unknown)
+    exprs = [0, 1, 3, 4, 5, 11]  # none, MIT, GPL-3.0 (deprecated), LicenseRef-x, Foo (unknown), LicenseRef-a_b (malformed)
     prov = ["MIT", "GPL-3.0", "Foo"]
     conds = []
     # one file: every fact x provision incl. the extension-less form and a LicenseRef
@@ -38,9 +38,9 @@ def run(ctx):
         )
         conds.append(
             xh.Cond(
-                f"one file expr#{e} x copyright x read-error x LICENSES{{MIT,LicenseRef-x,GPL-2.0-or-later}} in {{absent,ID.txt}}",
+                f"one file expr#{e} x copyright x read-error x LICENSES{{MIT,LicenseRef-x,LicenseRef-a_b}} in {{absent,ID.txt}}",
                 "REP.py", "_c01",
-                {"nfiles": 1, "exprs": [e], "prov_ids": ["MIT", "LicenseRef-x", "GPL-2.0-or-later"], "forms": [0, 1], "carve": carve},
+                {"nfiles": 1, "exprs": [e], "prov_ids": ["MIT", "LicenseRef-x", "LicenseRef-a_b"], "forms": [0, 1], "carve": carve},
                 timeout=tmo, twin="_c01_reach",
             )
         )
